@@ -1,6 +1,7 @@
 SPECIFICATION Spec
 CONSTANTS
   MaxTokens = 5
+  BoundedAfter = TRUE
   Fixed = TRUE
 INVARIANT InBounds
 INVARIANT TextIsSlice
